@@ -34,9 +34,9 @@ def exPending : St := (St.init exId exPid 2).run [.pkt 0 10 ngp]
 /-- … then the full REG2 on uplink 0 at t=50. -/
 def exAccepted : St := (St.init exId exPid 2).run [.pkt 0 10 ngp, .pkt 0 50 reg2Full]
 
-theorem exPending_reachable : Reachable exPending :=
+theorem C07_witness_pending_reachable : Reachable exPending :=
   ⟨exId, exPid, 2, _, List.length_replicate .., .inl rfl⟩
-theorem exAccepted_reachable : Reachable exAccepted :=
+theorem C07_witness_accepted_reachable : Reachable exAccepted :=
   ⟨exId, exPid, 2, _, List.length_replicate .., .inl rfl⟩
 
 /-! ## single outstanding REG1 -/
